@@ -108,7 +108,7 @@ theorem run_scopes : ∀ (n : Nat) (t : ITask) (st : St) (o : List Event) (st' :
           simp [ScopesOK]
         | call f args =>
           simp only [run, bind_ok, mapSt_ok] at h
-          obtain ⟨vs, _, m, _, scope, _, s1, h1, rfl⟩ := h
+          obtain ⟨fv, _, vs, _, m, _, scope, _, s1, h1, rfl⟩ := h
           have a := ih _ _ _ _ h1
           simp only [ScopesOK] at a ⊢
           simp [a]
@@ -343,7 +343,7 @@ theorem run_inv : ∀ (n : Nat) (t : ITask) (st : St) (o : List Event) (st' : St
           exact Inv.refl _
         | call f args =>
           simp only [run, bind_ok, mapSt_ok] at h
-          obtain ⟨vs, _, m, _, scope, _, s1, h1, rfl⟩ := h
+          obtain ⟨fv, _, vs, _, m, _, scope, _, s1, h1, rfl⟩ := h
           exact ((Inv.push st scope).trans (ih _ _ _ _ h1)).trans (Inv.pop s1)
       | sub ds body =>
         simp only [run] at h
